@@ -553,6 +553,65 @@ def readd_pass(ctx):
             return
 
 
+def builtin_objects_pass(ctx):
+    """the objects of the metamodel level are objects too: two instances of every concrete built-in metaclass (EAnnotation,
+    EClass, EPackage, EAttribute, ..., created the ways a user and the loaders create them); every attribute of theirs that
+    starts out as a map or a collection is mutated through one instance — the other instance, and an instance created
+    afterwards, read what they read before"""
+    from pyecore import ecore as E
+    makers = {
+        'EAnnotation': [lambda: E.EAnnotation(), lambda: E.EAnnotation(source='s'), lambda: E.EAnnotation.eClass()],
+        'EPackage': [lambda: E.EPackage('p'), lambda: E.EPackage()],
+        'EClass': [lambda: E.EClass('C')],
+        'EAttribute': [lambda: E.EAttribute('a', E.EString)],
+        'EReference': [lambda: E.EReference('r', E.EClass('T'))],
+        'EOperation': [lambda: E.EOperation('op')],
+        'EParameter': [lambda: E.EParameter('p')],
+        'EEnum': [lambda: E.EEnum('En')],
+        'EEnumLiteral': [lambda: E.EEnumLiteral('L')],
+        'EDataType': [lambda: E.EDataType('D')],
+        'ETypeParameter': [lambda: E.ETypeParameter('T')],
+        'EGenericType': [lambda: E.EGenericType()],
+        'EStringToStringMapEntry': [lambda: E.EStringToStringMapEntry()],
+    }
+    for name, ways in sorted(makers.items()):
+        for wi, make in enumerate(ways):
+            try:
+                a, b = make(), make()
+            except Exception as e:
+                ctx.count(f'builtin/{name}/cannot-create/{type(e).__name__}')
+                continue
+            for f in sorted(a.eClass.eAllAttributes(), key=lambda f: f.name):
+                try:
+                    va, vb = a.eGet(f), b.eGet(f)
+                except Exception:
+                    continue
+                if isinstance(va, dict):
+                    before = dict(vb)
+                    va['verif-key'] = 'v'
+                    fresh = make().eGet(f)
+                    others = {'the other instance': (dict(b.eGet(f)), before), 'an instance created afterwards': (dict(fresh), before)}
+                elif hasattr(va, 'append') and not isinstance(va, (str, bytes)):
+                    before = list(vb)
+                    try:
+                        va.append('verif-value')
+                    except Exception:
+                        continue
+                    fresh = make().eGet(f)
+                    others = {'the other instance': (list(b.eGet(f)), before), 'an instance created afterwards': (list(fresh), before)}
+                else:
+                    continue
+                ctx.evaluations += 1
+                ctx.nontriv(('builtin', name, wi, f.name))
+                ctx.count(f'builtin/{name}.{f.name}')
+                for who, (now, was) in others.items():
+                    if now != was:
+                        ctx.violate({'clause': 'shared-state', 'builtin': name, 'feature': f.name},
+                                    f'{name}.{f.name} (instances created the {wi + 1}. way): changed through one instance, '
+                                    f'{who} reads {now!r} instead of {was!r}', {'builtin': name, 'feature': f.name, 'way': wi})
+                        return
+
+
 def run(ctx):
     common.use_repo()
     n = 500 if ctx.quick() else 8000
@@ -572,6 +631,7 @@ def run(ctx):
     retype_pass(ctx)
     readd_pass(ctx)
     literal_default_pass(ctx)
+    builtin_objects_pass(ctx)
     out = common.run_driver('dflt', model_in)
     bad = set()
     for line, exp, got in zip(model_in, expect, out):
